@@ -57,6 +57,10 @@ class LadderNetworkMaker:
                 path = self.cg.series_path(edge, None, N2p)
                 if path == []:
                     return []
+                # A series arm cannot pass through the common node.
+                for edge1 in path:
+                    if edge1.to_node == N2m and N2m != N2p:
+                        return []
                 if self.debug:
                     print('series: ' + str(path))
                 opts.append(path)
